@@ -306,8 +306,9 @@ theorem matchOutput_digits (d : Str) (hne : d ≠ []) (hd : ∀ c ∈ d, isDig c
     rw [this, split1_first _ (by decide), split1_none hdash]
   have hemp : d.isEmpty = false := by cases d <;> simp_all
   unfold matchOutput
-  simp only [h1, h2.1, h2.2, hemp, h3, pyInt_digits hne hd]
-  cases digitsVal d <;> simp
+  have h4 := pyInt_digits hne hd
+  simp only [h1, h2.1, h2.2, hemp, h3]
+  cases hv : digitsVal d <;> simp [h4, hv]
 
 /-! ## T6: overall merge -/
 
